@@ -165,12 +165,15 @@ def include_flags(cfgdir):
 
 
 def _prune(keep_hash):
+    """remove build trees of other source hashes: everything older than 3 hours, and beyond the 10 most recent"""
     if not os.path.isdir(BUILD):
         return
     ds = [d for d in os.listdir(BUILD) if d.startswith("src-") and d != "src-" + keep_hash]
-    ds.sort(key=lambda d: os.path.getmtime(os.path.join(BUILD, d)))
-    for d in ds[:-1]:  # keep the most recent other hash (typically the unchanged tree)
-        shutil.rmtree(os.path.join(BUILD, d), ignore_errors=True)
+    ds.sort(key=lambda d: os.path.getmtime(os.path.join(BUILD, d)), reverse=True)
+    now = time.time()
+    for i, d in enumerate(ds):
+        if i >= 10 or now - os.path.getmtime(os.path.join(BUILD, d)) > 3 * 3600:
+            shutil.rmtree(os.path.join(BUILD, d), ignore_errors=True)
 
 
 class BuildError(Exception):
